@@ -93,12 +93,22 @@ def gen_case(rng):
     steps.append(['exit', code])
     eof_event = rng.choice([None, None, None, 'func-true', 'func-none', 'str']) if tail == 'eof' else None
     timeout_event = None
+    split = False
     if tail.startswith('long-pause') and rng.random() < 0.6:
         timeout_event = {'true_at': rng.choice([1, 2, 99])}
+    if tail == 'eof' and stop_at is None and not big and names and rng.random() < 0.25:
+        # a prompt whose first part arrives before a TIMEOUT event and whose rest arrives after it: the ticks
+        # never stop the run, the prompt must still be answered (once)
+        timeout_event = {'true_at': 99}
+        k = max(i for i, s in enumerate(steps) if s[0] == 'print' and bytes.fromhex(s[1]).decode().startswith('ASK'))
+        nm = bytes.fromhex(steps[k][1])
+        cut = rng.randint(1, len(nm) - 1)
+        steps[k:k + 1] = [['print', nm[:cut].hex()], ['pause', 1.6 * T], ['print', nm[cut:].hex()]]
+        split = True
     return {'enc': enc, 'steps': steps, 'events': events, 'overlap': overlap, 'form': rng.choice(['dict', 'list']),
             'eof_event': eof_event, 'timeout_event': timeout_event, 'code': code, 'stop_at': stop_at,
             'withexitstatus': rng.random() < 0.7, 'runu': enc is not None and rng.random() < 0.5,
-            'T': 20 if big else T}
+            'T': 20 if big else T, 'split_prompt': split}
 
 
 class Book(object):
@@ -242,7 +252,9 @@ def one(case, acc):
             return False
         # ---- output: exactly what the child printed up to the stop point
         full = b''.join(bytes.fromhex(s[1]) for s in case['steps'] if s[0] == 'print')
-        stops_early = case['stop_at'] is not None or any(s[0] == 'pause' and s[1] > T for s in case['steps'])
+        never_stops = bool(case['timeout_event'] and case['timeout_event']['true_at'] > 2)
+        stops_early = case['stop_at'] is not None or (
+            any(s[0] == 'pause' and s[1] > T for s in case['steps']) and not never_stops)
         acc.count('output_bytes_compared', len(got))
         if not stops_early:
             if got != full:
@@ -311,12 +323,12 @@ def one(case, acc):
             nprompt_events = i + 1
         tail_calls = [c for c in book.calls if c[0] in ('tick', 'eof-true', 'eof-none')]
         head_calls = [c for c in book.calls if c[0] not in ('tick', 'eof-true', 'eof-none')]
-        if [c[1] for c in head_calls] != exp_counts[:len(head_calls)]:
+        if not case.get('split_prompt') and [c[1] for c in head_calls] != exp_counts[:len(head_calls)]:
             return v('callback-event_count-wrong', 'callbacks saw event_count %r, expected %r' % (
                 [c[1] for c in head_calls], exp_counts))
-        if tail_calls and [c[1] for c in tail_calls] != list(range(tail_calls[0][1], tail_calls[0][1] + len(tail_calls))):
+        if tail_calls and not case.get('split_prompt') and [c[1] for c in tail_calls] != list(range(tail_calls[0][1], tail_calls[0][1] + len(tail_calls))):
             return v('callback-event_count-wrong', 'tick/EOF callbacks saw event_count %r' % ([c[1] for c in tail_calls],))
-        if tail_calls and tail_calls[0][1] != nprompt_events and case['stop_at'] is None:
+        if tail_calls and tail_calls[0][1] != nprompt_events and case['stop_at'] is None and not case.get('split_prompt'):
             return v('callback-event_count-wrong', 'first tick/EOF callback saw event_count %r after %d prompt events' % (
                 tail_calls[0][1], nprompt_events))
         # ---- exit status
